@@ -184,6 +184,29 @@ func (w *World) NewExternalInvoice(amountMsat uint64) *Invoice {
 	return i
 }
 
+// NewForgedInvoice encodes an invoice for an arbitrary payment hash (the payee is
+// an outside party that does not know the preimage). It is not registered as an
+// invoice of the world: paying it over Lightning can never succeed.
+func (w *World) NewForgedInvoice(hashHex string, amountMsat uint64) *Invoice {
+	w.mu.Lock()
+	defer w.mu.Unlock()
+	hb, _ := hex.DecodeString(hashHex)
+	var hash [32]byte
+	copy(hash[:], hb)
+	inv, err := zpay32.NewInvoice(&chaincfg.SigNetParams, hash, time.Now(), zpay32.Description("forged"), zpay32.Amount(lnwire.MilliSatoshi(amountMsat)))
+	if err != nil {
+		panic(err)
+	}
+	key := w.key
+	str, err := inv.Encode(zpay32.MessageSigner{SignCompact: func(msg []byte) ([]byte, error) {
+		return ecdsa.SignCompact(key, msg, true), nil
+	}})
+	if err != nil {
+		panic(err)
+	}
+	return &Invoice{Hash: hashHex, Bolt11: str, AmountMsat: amountMsat, Desc: "forged"}
+}
+
 // PayInvoice: an external payer pays an invoice of one of the nodes (once).
 func (w *World) PayInvoice(hash string) bool {
 	w.mu.Lock()
@@ -448,7 +471,7 @@ func (n *Node) pay(ctx context.Context, request string, partial bool, amountMsat
 		p.Attempts++
 		record := true
 		switch plan.Answer {
-		case ASucceeded:
+		case ASucceeded, ATruth:
 			n.W.Payments[key] = p
 			n.W.succeedLocked(p)
 			res = lightning.PaymentStatus{Preimage: p.Preimage, PaymentStatus: lightning.Succeeded}
